@@ -70,7 +70,22 @@ def run(ctx):
             tokens[p[1]] = int(p[3].split("=")[1])
         elif line.startswith("skip "):
             skips.append(line.rstrip("\n")[5:200])
-    rc, out = sh("cat %s %s | %s" % (ops, cout, driver), timeout=3000)
+    # source-anchored tie for the one line of ts_language_symbol_for_name the port depends on
+    import re
+    src = open(os.path.join(os.environ.get("VERIF_REPO", "/repo"), "lib/src/language.c")).read()
+    m = re.search(r'if \(is_named && ([^\n]*"ERROR"[^\n]*)\) return ts_builtin_sym_error;', src)
+    cond = m.group(1).replace(" ", "") if m else ""
+    if cond == '!strncmp(string,"ERROR",length)':
+        mode = "prefix"
+    elif cond == 'length==5&&!strncmp(string,"ERROR",5)':
+        mode = "exact"
+    else:
+        mode = "prefix"
+        ctx.oblige("tie:symbol_for_name-ERROR-comparison", False, "unrecognised source line: " + cond[:120])
+    cfg = os.path.join(ctx.workdir, "cfg.txt")
+    open(cfg, "w").write("cfg errormode %s\n" % mode)
+    ctx.coverage["symbol_for_name_error_comparison"] = mode
+    rc, out = sh("cat %s %s %s | %s" % (cfg, ops, cout, driver), timeout=3000)
     langs = trees = tree_ok = tree_err = 0
     corr_cmp = corr_bad = judge_eval = judge_bad = 0
     distinct = set()
